@@ -134,6 +134,8 @@ def main(argv=None):
         units = [u for u in units if args.only in u.name]
     budget = pinfo.get('budget_s', 600 if tier == 'quick' else 3000)
     tasks = []
+    bounded_only = [u for u in units if u.kind == 'B']
+    units = [u for u in units if u.kind != 'B']
     for u in units:
         for mode in u.modes:
             for sh in range(u.shards):
@@ -343,6 +345,26 @@ def main(argv=None):
                     json.dump(rec, f, indent=1, default=str)
                 if ok:
                     violations.append("VIOLATION property=%s replay=%s obligation=%r mode=%s" % (prop, fn, name, r['mode']))
+    for u in bounded_only:
+        # units that are bounded stand-ins by design (never counted as obligations)
+        for mode in u.modes:
+            b = bounded_run(unit_spec(u), mode == 'O', seed, 800 if tier == 'quick' else 5000)
+            bounded["%s [%s] (bounded by design)" % (u.name, mode)] = dict(evaluations=b.get('evals', 0), skipped=b.get('skipped', 0),
+                                                                           failures=len(b.get('failures', [])))
+            for fl in b.get('failures', [])[:1]:
+                name = fl['obligations'][0]
+                fn = os.path.join(rdir, "bounded_%s.json" % hashlib.sha1((name + mode).encode()).hexdigest()[:12])
+                rec = dict(property=prop, obligation=name, mode=mode, kind='unit', unit=unit_spec(u), function=u.target,
+                           values=fl['values'], found_by='bounded stand-in (by design)')
+                with open(fn, 'w') as f:
+                    json.dump(rec, f, indent=1, default=str)
+                ok, info = native_replay(fn, mode == 'O')
+                rec['native_result'] = info
+                rec['reproduced'] = bool(ok)
+                with open(fn, 'w') as f:
+                    json.dump(rec, f, indent=1, default=str)
+                if ok:
+                    violations.append("VIOLATION property=%s replay=%s obligation=%r mode=%s" % (prop, fn, name, mode))
     for r in undecided_units:
         und_notes.append("%s [%s]: %s" % (r['name'], r['mode'], '; '.join(r['unsupported'][:3])))
 
@@ -399,7 +421,7 @@ def main(argv=None):
         print(l)
     for v in violations:
         print(v)
-    for n in und_notes:
+    for n in sorted(set(und_notes)):
         print("UNDECIDED property=%s %s" % (prop, n))
     for r, o in unknowns[:10]:
         print("UNKNOWN property=%s %s %s" % (prop, o['name'], o.get('detail', '')[:200]))
